@@ -10,10 +10,15 @@ for d in sorted(glob.glob(os.path.join(root, "*/"))):
         continue
     m, r = json.load(open(mp)), json.load(open(rp))
     kind = "benign (must NOT alarm)" if m.get("benign") else "breaking"
+    if m.get("regression_of_fix"):
+        kind = "regression: fix %s reversed" % m["regression_of_fix"]
     if m.get("framework_author_assessment", {}).get("violates_property_as_stated") is False:
         kind = "behaviour change that does not contradict the property as stated (see meta.json)"
     need = (m.get("needs_to_manifest") or m.get("summary") or "").replace("|", "/").replace("\n", " ")
     if len(need) > 230:
         need = need[:227] + "..."
-    res = "; ".join("%s -> %d (%s)" % (p, v["exit"], ", ".join(k.split("/", 1)[-1] for k in v["keys"][:2]) or "-") for p, v in r["results"].items())
+    res = "; ".join("%s -> %d (%s)" % (p, v["exit"], ", ".join(k.split("/", 1)[-1] for k in v["keys"][:2]) or
+                                       ("extended-spec deviation: " + ", ".join(x.split("/", 1)[-1] for x in v.get("extended_spec_deviations", [])[:2])
+                                        if v.get("extended_spec_deviations") and str(m.get("property", "")).startswith("EXT") else "-"))
+                    for p, v in r["results"].items())
     print("| %s | %s | %s | %s | %s |" % (os.path.basename(d.rstrip("/")), m.get("property"), kind, need, res))
